@@ -144,46 +144,49 @@ def exhaustive_seqs(nt, depth):
     return res
 
 
-def run_heap(exe, seqs):
-    """seqs: list of (nt, ops). returns per sequence the list of dumps (as int lists), or None + message"""
+def run_both(exe, mexe, lines):
+    """feed the same command lines to the library harness and to the extracted model; returns (impl_lines, model_lines, err)"""
+    inp = "\n".join(lines) + "\n"
+    r = common.run([exe], input=inp, timeout=1800)
+    if r.returncode != 0:
+        return None, None, "harness exit %s: %s" % (r.returncode, (r.stderr or "")[-1500:])
+    m = common.run([mexe], input=inp, timeout=1800)
+    if m.returncode != 0:
+        return None, None, "model driver exit %s: %s" % (m.returncode, (m.stderr or "")[-1500:])
+    return [l for l in r.stdout.split("\n") if l.strip()], [l for l in m.stdout.split("\n") if l.strip()], ""
+
+
+def run_heap(exe, mexe, seqs):
+    """seqs: list of (nt, ops). returns (impl dumps, model dumps) per sequence as int lists"""
     lines = []
     for nt, ops in seqs:
         lines += heap_input(nt, ops)
-    r = common.run([exe], input="\n".join(lines) + "\n", timeout=900)
-    if r.returncode != 0:
-        return None, "harness exit %s: %s" % (r.returncode, r.stderr[-1500:])
-    out = [l for l in r.stdout.split("\n") if l.strip()]
-    res, pos = [], 0
+    out, mout, err = run_both(exe, mexe, lines)
+    if out is None:
+        return None, None, err
+    res, mres, pos = [], [], 0
     for nt, ops in seqs:
         res.append([parse_dump(l) for l in out[pos:pos + len(ops)]])
+        mres.append([[int(x) for x in l.split()] for l in mout[pos:pos + len(ops)]])
         pos += len(ops)
-    if pos != len(out):
-        return None, "harness printed %d lines, expected %d" % (len(out), pos)
-    return res, ""
+    if pos != len(out) or pos != len(mout):
+        return None, None, "harness printed %d lines, model %d, expected %d" % (len(out), len(mout), pos)
+    return res, mres, ""
 
 
-def check_heap(name, seqs, dumps, chunk=60):
-    """compare inside Coq; returns (list of mismatch dicts, evaluations)"""
-    mism = []
-    total = 0
-    for c0 in range(0, len(seqs), chunk):
-        body = []
-        part = list(zip(seqs[c0:c0 + chunk], dumps[c0:c0 + chunk]))
-        for i, ((nt, ops), ds) in enumerate(part):
-            items = "; ".join("(%s, %s)" % (hop(o), driver.zlist(d)) for o, d in zip(ops, ds))
-            body.append("Eval vm_compute in hcheck0 %d [%s]." % (nt, items))
-        ok, vals, raw = driver.coq_eval("%s_%d" % (name, c0), ["Word", "Heap"], "\n".join(body) + "\n", timeout=1500)
-        if not ok or len(vals) != len(part):
-            mism.append({"what": "model evaluation failed (coqc)", "detail": raw[-1500:]})
-            continue
-        for ((nt, ops), ds), v in zip(part, vals):
-            flags = driver.ints(v)
-            total += len(flags)
-            bad = [i for i, f in enumerate(flags) if f != 1]
-            if bad or len(flags) != len(ops):
-                i = bad[0] if bad else 0
-                mism.append({"what": "timer heap: library and Model/Heap.v differ after operation %d of the sequence" % i,
-                             "detail": {"timers": nt, "ops": [list(o) for o in ops[:i + 1]], "impl_dump": ds[i] if i < len(ds) else None}})
+def check_heap(seqs, dumps, mdumps):
+    """entry-by-entry comparison of the complete dump after every operation"""
+    mism, total = [], 0
+    for (nt, ops), ds, ms in zip(seqs, dumps, mdumps):
+        for i, (d, m) in enumerate(zip(ds, ms)):
+            total += 1
+            if d != m:
+                where = next((k for k in range(min(len(d), len(m))) if d[k] != m[k]), min(len(d), len(m)))
+                mism.append({"what": "timer heap: library and Model/Heap.v differ after operation %d (%s) of a sequence, dump entry %d" % (i, list(ops[i]), where),
+                             "detail": {"timers": nt, "ops": [list(o) for o in ops[:i + 1]], "impl_dump": d[:200], "model_dump": m[:200]}})
+                break
+        if len(mism) >= 10:
+            break
     return mism, total
 
 
@@ -239,38 +242,398 @@ def judge_heap(seqs, dumps, tag):
     return fails
 
 
+# ---------------------------------------------------------------------------------------------------------
+# compute_missed: boundary-directed values
+
+LONG_MAX = I63
+UINT64_MAX = U64 - 1
+
+
+def gen_missed(rng, n):
+    cases = []
+    fixed = [(100, 150, 10, 135, 0), (100, 150, 10, 100, 0), (100, 100, 1, 100, 0), (5, 9, I63 - 1, I63 - 1, 0),
+             (5, 9, I63, 7, 0), (5, 9, UINT64_MAX, 7, 3), (1, 1, 1, I63 - 1, 0), (1, 1, 1, I63 - 1, I63 - 5),
+             (1, 2, 1, 100, LONG_MAX), (1, 2, 1, 100, LONG_MAX - 100), (1, 2, 1, 100, LONG_MAX - 99), (1, 2, 1, 100, LONG_MAX - 101),
+             (0, 0, 3, 10, 0), (10, 12, 3, 9, 0)]
+    cases += fixed
+    for _ in range(n):
+        kind = rng.below(8)
+        itv = rng.choice([1, 2, 3, 7, 10, 1000, 10**9, I63 - 1, I63, I63 + 1, UINT64_MAX, rng.range(1, 1 << 40), rng.range(1, I63)])
+        tg = rng.choice([1, 2, 1000, 10**18, I63 - 2, rng.range(1, 1 << 62)])
+        lee = rng.choice([0, 1, itv // 2 if itv < I63 else 5, rng.below(1000)])
+        dl = min(tg + lee, UINT64_MAX)
+        if kind == 0:     # exactly on a boundary
+            now = tg + itv * rng.below(50) if itv < (1 << 50) else tg
+        elif kind == 1:   # one before / after a boundary
+            now = tg + itv * rng.below(50) + rng.choice([-1, 1]) if itv < (1 << 50) else tg + 1
+        elif kind == 2:
+            now = tg
+        elif kind == 3:
+            now = I63 - 1
+        elif kind == 4:   # now < target: never called so, still a defined unsigned computation
+            now = max(0, tg - rng.range(1, 5))
+        else:
+            now = tg + rng.range(0, 1 << rng.range(1, 62))
+        now = max(0, min(now, UINT64_MAX))
+        prev = rng.choice([0, 0, 0, 1, 5, LONG_MAX, LONG_MAX - 1, LONG_MAX - rng.below(200), rng.range(0, 1 << 40)])
+        cases.append((tg, dl, itv, now, prev))
+    return cases
+
+
+def judge_missed(c, out):
+    """property side, in Python integers: for target <= now < 2^63, 1 <= interval, no clamp: count = boundaries passed,
+    new target is the first boundary after now"""
+    tg, dl, itv, now, prev = c
+    r, ntg, ndl = out
+    if not (tg <= now < (1 << 63) and itv >= 1 and prev + (now - tg) // itv + 1 <= LONG_MAX):
+        return None
+    k = (now - tg) // itv + 1
+    if r - prev != k:
+        return "count %d, boundaries passed %d" % (r - prev, k)
+    if itv < I63:
+        if ntg != tg + k * itv or not (ntg > now and ntg - itv <= now):
+            return "new target %d is not the first boundary after now" % ntg
+        if ndl != (dl + k * itv) % U64:
+            return "deadline not pushed with the target"
+    else:
+        if ntg != UINT64_MAX:
+            return "one-shot timer keeps a finite target"
+    return None
+
+
+# ---------------------------------------------------------------------------------------------------------
+# state machine sequences (valid usage of the unote functions)
+
+ITVS = [1, 2, 3, 7, 10, 1000, I63 - 1, I63, UINT64_MAX]
+
+
+def gen_tseq(rng, nt, length):
+    lines = ["N %d" % nt]
+    now = 1000
+    st = {}   # id -> dict(after, dead, reg)
+    def values(after=False):
+        tg = rng.choice([now + rng.range(-30, 120), now, now + 1, now - 1, I63, I63 - 1, I63 + 5, rng.range(1, now + 500)])
+        tg = max(1, tg)
+        itv = UINT64_MAX if after else rng.choice(ITVS)
+        lee = rng.choice([0, 1, 5, 50, (itv // 2) if itv < I63 else 7])
+        dl = min(tg + lee, I63) if not after else (tg + lee) % U64
+        return tg, dl, itv
+    def create(t):
+        after = rng.chance(1, 4)
+        clock = rng.below(3)
+        lines.append("t %d %d" % (t, (clock << 2) | (0x40 if after else 0)))
+        if after:
+            tg, dl, itv = values(True)
+            lines.append("a %d %d %d" % (t, tg, dl))
+        else:
+            tg, dl, itv = values()
+            lines.append("c %d %d %d %d %d" % (t, clock if rng.chance(5, 6) else rng.below(3), tg, dl, itv))
+        lines.append("g %d" % t)
+        lines.append("r %d" % t)
+        st[t] = {"after": after, "dead": False}
+    for t in range(1, nt + 1):
+        if rng.chance(3, 4):
+            create(t)
+    for _ in range(length):
+        k = rng.below(100)
+        t = rng.range(1, nt)
+        if t not in st or st[t]["dead"]:
+            if rng.chance(1, 2):
+                create(t)
+            continue
+        after = st[t]["after"]
+        if k < 30:
+            now += rng.choice([0, 1, 3, 10, 50, 200])
+            lines.append("R %d %d" % (rng.below(3), now))
+        elif k < 45:
+            lines.append("P %d %d" % (rng.below(3), now))
+        elif k < 60 and not after:
+            tg, dl, itv = values()
+            clock = rng.below(3)
+            lines.append("c %d %d %d %d %d" % (t, clock, tg, dl, itv))
+            if rng.chance(1, 2):
+                lines.append("f %d" % t)
+        elif k < 68 and not after:
+            lines.append("s %d 1" % t)
+        elif k < 78 and not after:
+            lines.append("s %d 0" % t)
+            lines.append("r %d" % t)
+        elif k < 90:
+            lines.append("l %d %d" % (t, now))
+            if not after:
+                lines.append("r %d" % t)
+        elif k < 95 and not after:
+            lines.append("u %d" % t)
+            st[t]["dead"] = True
+        else:
+            lines.append("S")
+    for i in range(3):
+        now += 1000
+        lines.append("R %d %d" % (i, now))
+        lines.append("P %d %d" % (i, now))
+    return lines
+
+
+def parse_state(tokens, nt):
+    """-> (heaps: list of (count,np,armed,min0,min1), timers: list of tuples(armed ident tg dl itv pending e0 e1 cfg))"""
+    heaps = [tuple(tokens[5 * i:5 * i + 5]) for i in range(3)]
+    rest = tokens[15:]
+    w = len(rest) // nt if nt else 0
+    timers = [tuple(rest[w * i:w * i + 9]) for i in range(nt)]
+    return heaps, timers
+
+
+def impl_line_to_list(line, nt):
+    """canonical int list of a harness output line of the state machine protocol (same shape as the model's)"""
+    if line.startswith("E") or line.startswith("P"):
+        head, state = line.split("#")
+        toks = head[1:].split()
+        out = []
+        for tk in toks:
+            parts = tk.split(":")
+            if parts[0] == "arm":
+                out += [1, int(parts[1]), int(parts[2]), int(parts[3])]
+            elif parts[0] == "del":
+                out += [0, int(parts[1]), 0, 0]
+            else:
+                out += [int(parts[0]), int(parts[1])]
+        out.append(-1)
+        state = state.strip()
+    else:
+        out, state = [], line
+    if "|" in state:
+        hs, ts = state.split("|")
+        ht = [int(x) for x in hs.split()]
+        tt = [int(x) for x in ts.split()]
+        flat = list(ht)
+        for i in range(nt):
+            flat += tt[10 * i:10 * i + 9]     # drop the reference count column
+        return out + flat
+    return out + [int(x) for x in state.split()]
+
+
+def judge_tseq(lines, out, nt):
+    """property judges on the library's own outputs: never early, count bound, run fixpoint, programming"""
+    fails = []
+    outs = iter(out)
+    last_state = None
+    for ln in lines:
+        c = ln[0]
+        if c not in "RPSl":
+            continue
+        o = next(outs)
+        if c == "l":
+            continue
+        if c == "S":
+            last_state = parse_state(impl_line_to_list(o, nt), nt)
+            continue
+        args = [int(x) for x in ln[1:].split()]
+        tidx, now = args
+        lst = impl_line_to_list(o, nt)
+        k = lst.index(-1)
+        heaps, timers = parse_state(lst[k + 1:], nt)
+        if c == "R":
+            armed_due = [i + 1 for i, t in enumerate(timers) if t[0] == 1 and t[1] == tidx and t[2] <= now]
+            if armed_due:
+                fails.append({"key": "run-fixpoint", "what": "after _dispatch_timers_run(tidx=%d, now=%d) timer(s) %s are still armed with target <= now" % (tidx, now, armed_due)})
+            ev = lst[:k]
+            for j in range(0, len(ev), 2):
+                t, pend = ev[j], ev[j + 1]
+                tm = timers[t - 1]
+                # after the fire a repeating timer's target was pushed by count*interval: target_before = target - count*interval
+                cnt = pend >> 1
+                if tm[4] < I63 and not (pend & 1) and tm[2] < I63:
+                    before = tm[2] - cnt * tm[4]
+                    if before > now:
+                        fails.append({"key": "early-fire", "what": "timer %d fired at now=%d with target %d" % (t, now, before)})
+                    if tm[2] <= now or tm[2] - tm[4] > now:
+                        fails.append({"key": "count-bound", "what": "timer %d reported %d intervals at now=%d but its next target is %d (interval %d)" % (t, cnt, now, tm[2], tm[4])})
+        if c == "P" and k > 0:
+            calls = lst[:k]
+            mins = [t[2] for t in timers if t[0] == 1 and t[1] == tidx]
+            if calls[0] == 1:
+                if not mins or calls[2] != min(mins):
+                    fails.append({"key": "program-min", "what": "kernel timer %d programmed to %d, minimum armed target is %s" % (tidx, calls[2], min(mins) if mins else None)})
+        if c == "P":
+            h = heaps[tidx]
+            mins = [t[2] for t in timers if t[0] == 1 and t[1] == tidx]
+            if h[1] == 0 and mins and now < min(mins) < I63 and h[2] == 0:
+                fails.append({"key": "program-lost", "what": "heap %d has a future minimum target %d, needs_program is clear and no kernel timer is armed" % (tidx, min(mins))})
+        last_state = (heaps, timers)
+        if len(fails) > 5:
+            break
+    return fails
+
+
 def correspond(ctx):
     ok, msg = common.ensure_build()
     exe, msg = common.build_harness("c11_heap", ["c11_heap.c"], whitebox=True, exclude_objs=("event.c.o",))
     if exe is None:
         return {"mismatches": [{"what": "harness build failed (white-box include of src/event/event.c)", "detail": msg}],
                 "failures": [], "evaluations": 0}
+    okc, outc = common.coq_make(["Extract/Extract_c11.vo"], timeout=900)
+    mexe, msg = common.build_ocaml("c11_driver.ml", extracted=("c11_model",)) if okc else (None, outc[-1500:])
+    if mexe is None:
+        return {"mismatches": [{"what": "extraction / OCaml build of the model failed", "detail": msg}], "failures": [], "evaluations": 0}
     rng = ctx.rng
     quick = ctx.tier == "quick"
-    mism, fails, dist = [], [], {}
+    mism, fails, dist, samples = [], [], {}, []
     evals = 0
-    # 1. heap: random sequences
+    # 1. heap: random sequences (growth past several segments, shrink, ties)
     seqs = []
-    plan = [(5, 40, 0), (5, 40, 1), (9, 60, 0), (12, 80, 1), (20, 120, 0), (40, 200, 1), (40, 160, 2), (70, 300, 3)]
-    reps = 2 if quick else 12
+    plan = [(5, 40, 0), (5, 40, 1), (9, 60, 0), (12, 80, 1), (20, 120, 0), (40, 200, 1), (40, 160, 2), (70, 300, 3), (150, 600, 1)]
+    reps = 4 if quick else 40
     for nt, ln, mode in plan:
         for _ in range(reps):
             seqs.append((nt, gen_heap_seq(rng, nt, ln, mode)))
-    dumps, m = run_heap(exe, seqs)
-    if dumps is None:
-        mism.append({"what": "harness run failed (heap)", "detail": m})
+    # exhaustive: all valid sequences of `depth` operations over 5 timers (validation, not proof)
+    depth = 5 if quick else 7
+    ex = [(5, s) for s in exhaustive_seqs(5, depth)]
+    dist["heap_exhaustive_depth"] = depth
+    dist["heap_exhaustive_sequences"] = len(ex)
+    for name, ss in (("random", seqs), ("exhaustive", ex)):
+        for c0 in range(0, len(ss), 20000):
+            part = ss[c0:c0 + 20000]
+            dumps, mdumps, m = run_heap(exe, mexe, part)
+            if dumps is None:
+                mism.append({"what": "harness run failed (heap, %s)" % name, "detail": m})
+                break
+            fails += judge_heap(part, dumps, name)
+            mm, n = check_heap(part, dumps, mdumps)
+            mism += mm
+            evals += n
+            if name == "random" and c0 == 0:
+                dist["heap_random_sequences"] = len(seqs)
+                dist["heap_random_ops"] = sum(len(o) for _, o in seqs)
+                dist["heap_max_segments_seen"] = max(d[1] for ds in dumps for d in ds)
+                dist["heap_max_count_seen"] = max(d[0] for ds in dumps for d in ds)
+                samples.append({"heap_ops": [list(o) for o in part[0][1][:4]], "impl_dump_after_4": dumps[0][3][:24]})
+    # 2. cell addresses of get_slot for every segment count reached by growing
+    lines = ["N 300"]
+    for t in range(1, 300):
+        lines += ["K %d %d %d" % (t, t, t), "I %d" % t]
+        if t in (1, 2, 5, 6, 9, 10, 17, 18, 32, 33, 63, 64, 126, 127, 250, 299):
+            lines.append("A")
+    out, mout, err = run_both(exe, mexe, lines)
+    if out is None:
+        mism.append({"what": "harness run failed (addresses)", "detail": err})
     else:
-        fails += judge_heap(seqs, dumps, "random")
-        mm, n = check_heap("c11_heap_rand", seqs, dumps, chunk=8)
-        mism += mm
-        evals += n
-        dist["heap_random_sequences"] = len(seqs)
-        dist["heap_random_ops"] = sum(len(o) for _, o in seqs)
-        dist["heap_max_segments_seen"] = max(d[1] for ds in dumps for d in ds)
-        dist["heap_max_count_seen"] = max(d[0] for ds in dumps for d in ds)
-    return {"evaluations": evals, "distinct_nontrivial": evals, "rule": "", "samples": [], "distribution": dist,
-            "mismatches": mism[:30], "failures": fails}
+        na = 0
+        for l, m in zip(out, mout):
+            li = [int(x) for x in l.replace("|", " ").split()]
+            mi = [int(x) for x in m.split()]
+            if len(li) < 300 and "|" in l and l.count("|") == 1:     # an A line
+                na += 1
+                if li != mi:
+                    mism.append({"what": "get_slot: cell (segment, offset) differs from Model/Heap.v slot_addr", "detail": {"impl": li[:60], "model": mi[:60]}})
+        evals += na
+        dist["address_maps_compared"] = na
+    # 3. compute_missed
+    mc = gen_missed(rng, 400 if quick else 20000)
+    out, mout, err = run_both(exe, mexe, ["M %d %d %d %d %d" % c for c in mc])
+    if out is None:
+        mism.append({"what": "harness run failed (compute_missed)", "detail": err})
+    else:
+        nclamp = 0
+        for c, l, m in zip(mc, out, mout):
+            li = [int(x) for x in l.split()]
+            mi = [int(x) for x in m.split()]
+            evals += 1
+            if li != mi:
+                mism.append({"what": "_dispatch_timer_unote_compute_missed differs from Model/TimerRun.v compute_missed",
+                             "detail": {"target,deadline,interval,now,prev": list(c), "impl": li, "model": mi}})
+            w = judge_missed(c, li)
+            if w:
+                fails.append({"key": "missed:" + w.split(",")[0][:30], "what": "compute_missed(target=%d, deadline=%d, interval=%d, now=%d, prev=%d) -> %s: %s" % (c + (li, w)),
+                              "kind": "missed", "case": list(c)})
+            if c[4] + (c[3] - c[0]) // max(c[2], 1) + 1 > LONG_MAX:
+                nclamp += 1
+        dist["compute_missed_cases"] = len(mc)
+        dist["compute_missed_clamped"] = nclamp
+        samples.append({"compute_missed": list(mc[0]), "impl": out[0]})
+    # 4. the state machine: run / program / configure / resume / unregister / latch
+    nseq = 12 if quick else 300
+    nstate = 0
+    for si in range(nseq):
+        nt = rng.choice([3, 5, 8, 20])
+        lines = gen_tseq(rng, nt, rng.choice([40, 120, 300]))
+        out, mout, err = run_both(exe, mexe, lines)
+        if out is None:
+            mism.append({"what": "harness run failed (state machine)", "detail": {"err": err, "lines": lines[:400]}})
+            continue
+        if len(out) != len(mout):
+            mism.append({"what": "state machine: different number of answers", "detail": {"impl": len(out), "model": len(mout)}})
+            continue
+        cmds = [l for l in lines if l[0] in "RPSl"]
+        for i, (l, m) in enumerate(zip(out, mout)):
+            mi = [int(x) for x in m.split()]
+            li = impl_line_to_list(l, nt)
+            nstate += 1
+            if cmds[i][0] == "R":
+                if mi[0] != 1:
+                    mism.append({"what": "model of _dispatch_timers_run ran out of fuel", "detail": {"cmd": cmds[i]}})
+                mi = mi[1:]
+            if li != mi:
+                where = next((k for k in range(min(len(li), len(mi))) if li[k] != mi[k]), min(len(li), len(mi)))
+                upto = lines.index(cmds[i]) if cmds[i] in lines else 0
+                mism.append({"what": "timer state machine: library and Model/TimerRun.v differ at answer %d (%s), entry %d" % (i, cmds[i], where),
+                             "detail": {"timers": nt, "impl": li[:80], "model": mi[:80], "commands": lines}})
+                break
+        for f in judge_tseq(lines, out, nt):
+            f["kind"] = "tseq"; f["lines"] = lines; f["timers"] = nt
+            fails.append(f)
+        if si == 0:
+            samples.append({"state_machine_commands": lines[:12], "impl_answer": out[0][:160]})
+    evals += nstate
+    dist["state_machine_sequences"] = nseq
+    dist["state_machine_answers_compared"] = nstate
+    # dedupe failures by key
+    seen, uf = set(), []
+    for f in fails:
+        if f["key"] not in seen:
+            seen.add(f["key"]); uf.append(f)
+    return {"evaluations": evals, "distinct_nontrivial": evals,
+            "rule": "white-box harness (#include of src/event/event.c) and the OCaml extraction of Model/Heap.v + Model/TimerRun.v are fed "
+                    "the same command stream; after EVERY heap operation the whole array by idx, count, segments, needs_program, both "
+                    "min slots and every timer's dt_heap_entry are compared entry by entry (random sequences with ties, growth past 6 "
+                    "segments and shrink back to empty; all valid sequences of %d operations over 5 timers); get_slot's cell per idx vs "
+                    "slot_addr; compute_missed on boundary-directed values; _dispatch_timers_run / _program / configure / resume / "
+                    "unregister / latch on random life cycles with the fired events, kernel timer calls and full state compared; the "
+                    "library's outputs are additionally judged in Python against the property (double heap shape, count = boundaries, "
+                    "never early, run fixpoint, programmed expiry = minimum)" % depth,
+            "samples": samples, "distribution": dist, "mismatches": mism[:30], "failures": uf[:20]}
 
 
 def replay(ctx, obj):
+    exe, msg = common.build_harness("c11_heap", ["c11_heap.c"], whitebox=True, exclude_objs=("event.c.o",))
+    if exe is None:
+        print("harness build failed", msg)
+        return 2
+    for f in obj.get("failures", []):
+        print("recorded:", f.get("what"))
+        if f.get("kind") == "heap":
+            ops = [tuple(o) for o in f["ops"]]
+            r = common.run([exe], input="\n".join(heap_input(f["timers"], ops)) + "\n")
+            out = [l for l in r.stdout.split("\n") if l.strip()]
+            keys, present = {}, []
+            for o, l in zip(ops, out):
+                if o[0] == "I":
+                    keys[o[1]] = (o[2], o[3]); present.append(o[1])
+                elif o[0] == "U":
+                    keys[o[1]] = (o[2], o[3])
+                else:
+                    present.remove(o[1])
+                w = judge_dump(parse_dump(l), keys, f["timers"], present)
+                print("  %s -> %s%s" % (list(o), l[:100], ("   <-- " + w) if w else ""))
+        elif f.get("kind") == "missed":
+            r = common.run([exe], input="M %d %d %d %d %d\n" % tuple(f["case"]))
+            li = [int(x) for x in r.stdout.split()]
+            print("  now:", li, judge_missed(tuple(f["case"]), li))
+        elif f.get("kind") == "tseq":
+            r = common.run([exe], input="\n".join(f["lines"]) + "\n")
+            out = [l for l in r.stdout.split("\n") if l.strip()]
+            for g in judge_tseq(f["lines"], out, f["timers"]):
+                print("  now:", g["what"])
+    for b in obj.get("broken", []):
+        print("no longer checks:", str(b)[:600])
     return 1
